@@ -397,6 +397,9 @@ func NewLockCommandDataFromOriginBytes(data []byte) *LockCommandData {
 	if len(data) < 6 {
 		return nil
 	}
+	if data[5]&LOCK_DATA_FLAG_CONTAINS_PROPERTY != 0 && (len(data) < 8 || (int(data[6])|int(data[7])<<8)+8 > len(data)) {
+		return nil
+	}
 	return &LockCommandData{data, data[4] >> 6, data[4] & 0x3f, data[5]}
 }
 
